@@ -52,11 +52,28 @@ def eval_at(ctx, fi: FuncInfo, test, env: Dict[str, Any]):
 def enclosing_ifs(fi: FuncInfo, node):
     """If statements of ``fi`` around ``node`` (a statement or an expression),
     outermost first, as (if_node, in_body) pairs"""
+    def _leaves(block):
+        if not block:
+            return False
+        t = block[-1]
+        if isinstance(t, (ast.Continue, ast.Break, ast.Return, ast.Raise)):
+            return True
+        if isinstance(t, ast.If):
+            return bool(t.orelse) and _leaves(t.body) and _leaves(t.orelse)
+        return False
+
     def find(stmts, trail):
+        trail = list(trail)
         for s in stmts:
             if s is node:
                 return trail
             if not any(x is node for x in ast.walk(s)):
+                # an earlier guard clause: `if c: return/raise/continue/break` -- what follows runs only when c is false
+                if isinstance(s, ast.If):
+                    if _leaves(s.body) and not _leaves(s.orelse):
+                        trail.append((s, False))
+                    elif s.orelse and _leaves(s.orelse) and not _leaves(s.body):
+                        trail.append((s, True))
                 continue
             if isinstance(s, ast.If):
                 if any(x is node for x in ast.walk(s.test)):
